@@ -111,7 +111,7 @@ func (t *poll) Run(ctx execution.ExecutionContext, produce execution.ProduceFn, 
 			for i := range lastValues {
 				if err := produce(
 					execution.ProduceFromExecutionContext(ctx),
-					execution.NewRecord(lastValues[i], true, lastNow),
+					execution.NewRecord(lastValues[i], true, now),
 				); err != nil {
 					return fmt.Errorf("couldn't produce record: %w", err)
 				}
